@@ -288,11 +288,12 @@ def finish(ctx, level, rule, trusted, assumptions, props_judged=None, extra_cov=
     findings = load_findings()
     mine = [d for d in ctx.devs if d["prop"] in props_judged]
     other = [d for d in ctx.devs if d["prop"] not in props_judged]
-    viol, known = [], {}
+    viol, known, kcases = [], {}, {}
     for d in mine:
         f = finding_for(d, findings)
         if f:
             known.setdefault(f["id"], [f, 0])[1] += 1
+            kcases.setdefault(f["id"], set()).add(str(d.get("info", {}).get("case", "?")))
         else:
             viol.append(d)
     # model-checking violations of the design (not expected): the design model itself is wrong or the property fails on the design
@@ -355,7 +356,7 @@ def finish(ctx, level, rule, trusted, assumptions, props_judged=None, extra_cov=
            "distinct_nontrivial": max(2, ctx.traces),
            "rule": rule, "trusted_base": trusted,
            "model_checking_runs": [{k: r[k] for k in ("module", "cfg", "generated", "distinct", "completed", "violated", "wall_s", "never_taken")} | ({"broken_twin_rejected": r["violated"]} if r.get("expect_violation") else {}) for r in ctx.mc],
-           "trace_stats": ctx.stats, "largest_error_over_tolerance": {k: float("%.3g" % v) for k, v in sorted(ctx.worst.items())}, "known_finding_matches": {k: v[1] for k, v in known.items()},
+           "trace_stats": ctx.stats, "largest_error_over_tolerance": {k: float("%.3g" % v) for k, v in sorted(ctx.worst.items())}, "known_finding_matches": {k: v[1] for k, v in known.items()}, "known_finding_cases": {k: sorted(v) for k, v in kcases.items()},
            "infrastructure_failures": len(ctx.infra), "exhaustive": False}
     if extra_cov:
         cov.update(extra_cov)
